@@ -660,3 +660,78 @@ func runNesting(r *engine.Run) {
 	r.Bound("inner", fmt.Sprint(len(inner)))
 	r.Note(fmt.Sprintf("shard %d: %d valid nestings compared, %d invalid skipped", r.Shard, valid, invalid))
 }
+
+// runFlatRepetition: parser state that must return to its initial value after
+// every statement (nesting counters, scope flags, label sets) is exercised by
+// repeating one statement N times as siblings - at program level, in a function
+// body and in a loop block - followed by a deeply nested probe statement. N is
+// beyond the parser's nesting bound (20000), so a leak of one level per
+// construct in any bounded counter rejects a flat, valid program.
+func runFlatRepetition(r *engine.Run) {
+	h := &harness{r: r}
+	n1 := 20001
+	var forms []stmtForm
+	forms = append(forms, leafStatements()...)
+	for _, f := range asiForms()[:20] {
+		forms = append(forms, stmtForm{"asi-" + f.name, f.mk})
+	}
+	for _, c := range ctors() {
+		c := c
+		forms = append(forms, stmtForm{"expr-" + c.name, func() *N { return ex((&leafGen{}).fill(c)) }})
+	}
+	probe := func() *N {
+		var e *N = n("Unary", "-", id("b"))
+		for i := 0; i < 40; i++ {
+			switch i % 4 {
+			case 0:
+				e = n("Array", "", e)
+			case 1:
+				e = n("Unary", "!", e)
+			case 2:
+				e = n("Call", "", id("f"), e)
+			default:
+				e = n("Cond", "", id("c"), e, id("d"))
+			}
+		}
+		return ex(n("Assign", "=", id("y"), e))
+	}
+	envs := []struct {
+		name string
+		ok   func(s *N) bool
+		wrap func(s []*N) *N
+	}{
+		{"top", func(s *N) bool { return !freeJumps(s) }, func(s []*N) *N { return program(s...) }},
+		{"func", func(s *N) bool { return !contains(s, "Break", "Continue") || !freeJumps(s) }, func(s []*N) *N { return program(n("FuncDecl", "", nfn("f", s...))) }},
+		{"loop", func(s *N) bool { return s.Kind != "FuncDecl" }, func(s []*N) *N { return inEnv(s...) }},
+	}
+	for _, f := range forms {
+		for _, e := range envs {
+			key := f.name + "/" + e.name
+			s := f.mk()
+			if !e.ok(s) || !validPlacement(e.wrap([]*N{s}), "") {
+				continue
+			}
+			if !r.MineKey(key) {
+				continue
+			}
+			if r.Expired() {
+				r.Cap("time budget reached")
+				return
+			}
+			list := make([]*N, 0, n1+1)
+			for i := 0; i < n1; i++ {
+				list = append(list, s) // the same subtree N times
+			}
+			list = append(list, probe())
+			T := e.wrap(list)
+			toks, err := syntax.Tokens(T, syntax.RenderOpts{})
+			if err != nil {
+				r.Skip()
+				continue
+			}
+			h.check(key, T, syntax.Join(toks, true))
+		}
+	}
+	r.Bound("repetitions", fmt.Sprint(n1))
+	r.Bound("forms", fmt.Sprint(len(forms)))
+}
